@@ -9,7 +9,7 @@ S2C : streams generated from OpSeq.tla behaviours through the public API are val
 """
 import json
 
-from .. import corpus, stream_events, streams, tlc, vela_run
+from .. import corpus, faststorage, stream_events, streams, tlc, vela_run
 from ..common import Run, MachineryError, seed
 
 CONFIG_ARENA = {"Dedicated_Sram": 393216, "Dedicated_Sram_512KB": 524288}
@@ -26,8 +26,40 @@ def main(tier):
     run = Run("C02", tier)
     sd = seed()
     n = 60 if tier == "quick" else 1500
+    # design level (growth beyond the listed property): the scheduler's fast-storage allocation keeps usage within the
+    # staging limit (FastStorage.tla); negative control = best score not reset between components
+    sfx = "_Quick.cfg" if tier == "quick" else ".cfg"
+    for cfg, want in (("FastStorage_MC" + sfx, "ok"), ("FastStorage_Broken" + sfx, "invariant")):
+        res = tlc.run("FastStorageMC", cfg, workers=16, timeout=2400)
+        if res["status"] != want:
+            raise MachineryError("FastStorage %s: expected %s, got %s\n%s" % (cfg, want, res["status"], res["output"][-1500:]))
+        run.add_mc("FastStorage/" + cfg, res)
     jobs = corpus.all_singles(sd) + corpus.draw(n, sd, dedicated_bias=0.5)
-    rs = vela_run.compile_many(jobs)
+    jobs += corpus.draw(12 if tier == "quick" else 150, sd + 7, families=["diamonds", "branch", "inplace"])
+    faststorage.install()
+    try:
+        rs = vela_run.compile_many(jobs, extractor=faststorage.extractor)
+    finally:
+        faststorage.uninstall()
+    fs_events, fs_index = [], {}
+    for j, x in zip(jobs, rs):
+        for rec in (x.get("extract") or []):
+            rec["t"] = len(fs_events) + 1
+            fs_events.append(rec)
+            fs_index[rec["t"]] = j
+    if fs_events:
+        import re
+        res, viol = tlc.validate_traces("FastStorageTrace", "FastStorageTrace.cfg", fs_events, timeout=1800)
+        run.add_trace_run("FastStorageTrace", res, len(fs_events))
+        for v in viol:
+            j = fs_index[v[0]]
+            run.violation("FastStorage|%s|%s" % (v[1], j["family"].split(":")[0]),
+                          "fast-storage allocation %s violated for %s with %s" % (v[1], j["family"], j["opts"]),
+                          {"net": j["net"], "opts": j["opts"], "record": fs_events[v[0] - 1]})
+        m = re.search(r'<<\s*"DRIFT",\s*"((?:[^"\\\\]|\\\\.)*)"\s*>>', res["output"], re.S)
+        dr = json.loads(json.loads('"' + m.group(1).replace("\n", " ") + '"')) if m and m.group(1) else []
+        run.cov["fast_storage"] = {"component_allocations": len(fs_events), "model_drift": len(dr),
+                                   "largest_component": max(len(e["lrs"]) for e in fs_events)}
     events, index, tid = [], {}, 0
     for j, x in zip(jobs, rs):
         if x["rc"] != 0 or "out_bytes" not in x:
